@@ -292,6 +292,10 @@ func genCrash(r *Rng, i int, tier string) string {
 	if r.Chance(15) {
 		s += " badrow=1" // an unparsable row is handed out first
 	}
+	if r.Chance(15) {
+		s = strings.Replace(s, " retry=0", " retry=2", 1)
+		s += " mode=flaky" // transient transport failures: a stop or kill falls into the back-off between two attempts
+	}
 	if r.Chance(12) {
 		s += " tempjob=1" // --warc-temp-dir is the job directory itself
 	}
